@@ -188,6 +188,9 @@ pub(crate) fn script_sets(env: &Env, tip: u64) -> Vec<(String, Vec<Reg>)> {
         ("A@0,B@0,T@0".to_owned(), vec![reg('A', 0), reg('B', 0), reg('T', 0)]),
         ("A@4".to_owned(), vec![reg('A', 4)]),
         ("B@0,A@tip-1".to_owned(), vec![reg('B', 0), reg('A', tip.saturating_sub(1))]),
+        // start numbers in the middle of a filter batch (batches are cut at check points 4, 8, ...)
+        ("A@6,B@0".to_owned(), vec![reg('A', 6.min(tip.saturating_sub(2))), reg('B', 0)]),
+        ("T@0,A@2".to_owned(), vec![reg('T', 0), reg('A', 2)]),
     ]
 }
 
@@ -203,6 +206,20 @@ pub(crate) fn interesting_txs(chain: &Chain, regs: &[Reg]) -> Vec<packed::Byte32
         if let Some(c) = cells.iter().find(|c| c.spent_at.is_none() && c.created > 0) {
             if !v.contains(&c.out_point.tx_hash()) {
                 v.push(c.out_point.tx_hash());
+            }
+        }
+    }
+    // a transaction one of whose outputs is spent by a later transaction of the same block
+    'outer: for b in chain.blocks.iter().skip(1) {
+        let txs = b.transactions();
+        for (i, tx) in txs.iter().enumerate() {
+            for later in txs.iter().skip(i + 1) {
+                if later.inputs().into_iter().any(|inp| inp.previous_output().tx_hash() == tx.hash()) {
+                    if !v.contains(&tx.hash()) {
+                        v.push(tx.hash());
+                    }
+                    break 'outer;
+                }
             }
         }
     }
@@ -349,6 +366,6 @@ pub(crate) fn run(opts: &Opts, report: &mut Report) {
     report.set("evaluations", json!(report.get("runs")));
     report.set("distinct_nontrivial", json!(report.get("runs_with_indexed_cells")));
     report.set("rule", json!("a run = the honest sync history of one (world, script set, batch size) with <= bound deviations inserted, executed from scratch on the real client; states = distinct final (store, peers) fingerprints; transitions = executed steps (deliveries, timer rounds, user calls, restarts); every run is judged after quiescence by the reference index"));
-    report.set("bounds", json!({"deviations": if thorough { 2 } else { 1 }, "worlds": 4, "script_sets": 4, "deviation_alphabet": ["DeliverIndex", "TruncateBatch", "TickRound", "Restart", "FetchTx", "FetchHeader", "SetScripts(partial, unchanged)"]}));
+    report.set("bounds", json!({"deviations": if thorough { 2 } else { 1 }, "worlds": 4, "script_sets": 6, "deviation_alphabet": ["DeliverIndex", "TruncateBatch", "TickRound", "Restart", "FetchTx", "FetchHeader", "SetScripts(partial, unchanged)"]}));
     report.assume("honest peers only; the world grows by one empty block on a restart so that the peer can be proven again");
 }
